@@ -145,6 +145,10 @@ mut("C18-revert-cpp-stub-close-check", "gencpp.c",
     "  if (failed) comsgFatal(NULL, ALDOR_F_CantWrite, strPrintf(\"%s/%s_cc.h\",dir,file));", "")
 
 
+mut("C09-revert-memory-map-table-bound", "os_unix.c",
+    "#define MAX_MMAPS 4096\n", "#define MAX_MMAPS 30\n#define exit(x) ((void) 0)\n")
+
+
 def main():
     out = os.path.join(os.path.dirname(os.path.abspath(__file__)), "mutants")
     os.makedirs(out, exist_ok=True)
